@@ -266,6 +266,8 @@ class ModuleNormalizer(object):
         if isinstance(e, ast.Call) and isinstance(e.func, ast.Attribute) and isinstance(e.func.value, ast.Name) and e.func.value.id in ("np", "math", "numpy") \
                 and e.func.attr in ("power", "sqrt", "pow") and not e.keywords:
             return all(self._literal(a, depth + 1) for a in e.args)
+        if isinstance(e, ast.Call) and isinstance(e.func, ast.Attribute) and isinstance(e.func.value, ast.Name) and e.func.value.id == "re" and e.func.attr == "compile":
+            return all(self._literal(a, depth + 1) for a in e.args) and all(self._literal(k.value, depth + 1) for k in e.keywords)   # a pre-compiled pattern
         return False
 
     # ------------------------------------------------------------------ driver
